@@ -367,6 +367,31 @@ def d8(ctx, rid):
         raise core.AnchorLost('impls of io::WritableDataCreator::create: %d' % n)
 
 
+def d9(ctx, rid):
+    """a query over the active blob and the closed blobs sees one state of the storage: a client-facing body of the storage does
+    not take the shared storage lock twice in a row.  Between the two sections a queued writer (restore, rotation) is admitted -
+    the blob moves from the list the second section reads to the slot the first one read, and the query misses a record that was
+    acknowledged long before it started"""
+    prog = ctx.prog
+    n = 0
+    for f in prog.fns.values():
+        if f.file != 'src/storage/core.rs' or not f.is_coroutine:
+            continue
+        acq = [c for c in f.calls if c.bb in f.reachable() and c.name == 'read' and 'RwLock' in c.path and prims.receiver_field(f, c) == 'safe']
+        if not acq:
+            continue
+        n += 1
+        key = 'one-shared-section|%s' % prog.fns[f.id].root
+        twice = [(a, b) for a in acq for b in acq if a is not b and b.bb in f.reach_from(f.after(a.bb)) and core.loop_depth(f, b.bb) == core.loop_depth(f, a.bb)]
+        if twice:
+            a, b = twice[0]
+            ctx.bad(rid, key, b.where(), 'the shared storage lock is taken a second time in this body (first at %s): the two sections see different states of the storage when a restore / rotation is admitted in between' % a.where())
+        else:
+            ctx.ok(rid, key, acq[0].where(), 'one shared section')
+    if n < 8:
+        raise core.AnchorLost('storage bodies that take the shared storage lock: %d' % n)
+
+
 RULES = [
     Rule('C08.D1', 'the wait-for graph over lock classes, the bounded worker channel and task joins has no cycle with conflicting modes', d1, 1),
     Rule('C08.D2', 'every record append on a blob is made with exclusive access that is still held at the index push of that record', d2, 2),
@@ -375,5 +400,6 @@ RULES = [
     Rule('C08.D6', 'no file of the io layer is opened with O_APPEND: the reserved offset is the offset written (C11.F9 instance)', d6, 1),
     Rule('C08.D7', 'no value computed under a released guard of a lock is handed to a later write guard of the same lock in the same body', d7, 1),
     Rule('C08.D8', 'every WritableDataCreator builds its result from the offset reserved for it inside the append closure', d8, 1),
+    Rule('C08.D9', 'no client-facing storage body takes the shared storage lock twice in a row', d9, 8),
     Rule('C08.D4', 'append offsets originate only in the atomic size reservation; the counter is only loaded / fetch_add-ed', d4, 5),
 ]
